@@ -40,6 +40,14 @@ CHECKS = {
   text="Lean theorems for every gophermap file and line: one entry per line in file order (parse distributes over concatenation, no state crosses lines), a line without a tab is an info entry with the stripped text, otherwise first character = type, rest of first field = description, missing selector defaults to the description, a selector starting neither with '/' nor 'URL:' is resolved against the directory, host/port taken when present else unset and rendered as this server, population from the file system never changes authored selector/host/port, well-formed lines never raise; the same parsed list drives every protocol view. Tie: real listings in seven views (Gopher, Gopher+ '+' and '$', HTTP, WAP, Gemini, Spartan) of seeded gophermaps at depth 0-3 vs the model, byte for byte in the rows region, with stat/MIME/sidecar answers of existing targets fed to the model. Oracle: independent reader written from doc/standards/gophermap.txt.",
   note="port fields restricted to ASCII decimals (int() accepts more); boilerplate around the rows and Mod-Date formatting are masked; library answers (stat, mimetypes, regex mapping) are oracles",
   technique="Lean 4 proof of the gophermap parser model + byte-level differential correspondence in seven views"),
+ "C10": dict(
+  text="Lean state machine over (directory, cache file, clock) with operations mutate / tick / list, integer-second cache mtime and the code's freshness test; theorems by induction over every finite history: the invariant (the cache holds the listing of a directory state that really occurred, stamped with that moment) holds in every reachable state; a hit serves exactly that listing and leaves the cache untouched (no refresh); every listing served shows the directory as it really was at a moment less than the lifetime ago, or as it is now; an expired entry is never used; lifetime 0 always serves the current directory; what is cached is the protocol-free entry list. Tie: seeded operation histories on a real tree with the module clock substituted and cache mtimes set to it, listings through 7 protocol views, vs Cache.run — the sequence of (time, version) pairs must be identical. Oracle: the staleness statement evaluated on the observed history.",
+  note="partial: a clock going backwards and a writer slower than a second are not modelled; cache-file mtime is set by the harness to the substituted clock; pickling fidelity is C11's subject",
+  technique="Lean 4 proof (invariant by induction over operation histories) + history-level correspondence"),
+ "C11": dict(
+  text="Lean theorems for every file content: a cache file that does not unpickle is a cache miss answered with the regenerated listing; under PrefixFails (no strict prefix of a written file loads) a file cut at ANY byte yields the cached listing only if complete and the fresh listing otherwise, so the answer is never wrong; the assumption is shown satisfiable by a concrete prefix-free serializer. Tie and validation of the assumption: complete enumeration of every prefix length and the zero-filled file of real cache files on the real code, each followed by a listing request through a seeded protocol view; every prefix is also fed to pickle.loads to validate PrefixFails.",
+  note="pickle's grammar is an assumption validated exhaustively per file, not modelled; the ZIP index cache (shelve/dbm.dumb) is never read back on this platform and is not claimed",
+  technique="Lean 4 proof over an abstract unpickler + exhaustive prefix enumeration on the real code"),
  "C12": dict(
   text="Lean theorems on the directory model: adding an unservable member (no handler or I/O error while building its entry, contents unreadable) anywhere in the enumeration leaves the listing exactly as it is without it — same success, same entries, same order — for the plain and the UMN handler, for any number of such members (via mergeSort_cons and append lemmas for link collection and entry building); a name containing any forbidden substring of the extracted selector filter yields an insecure child selector whatever the directory. Tie: real listings with injected faults vs the model with those members marked unservable by independent inspection. Oracle: listing of the faulty directory == listing of the healthy twin in 7 views x 2 handlers for dangling and self-looping symlinks, FIFO, socket, vanishing member, filter-rejected names, dot-named variants, singles and pairs.",
   note="EACCES is represented by the vanished-member path; a dot-named FIFO is replaced by a socket (open would block in the OS)",
